@@ -62,7 +62,7 @@ CLAIMED = {
             "DESIGN.md §5 C09, Appendix B"),
     "C10": (ENGINE_B, "exploration",
             "real Sampler as shuttle tasks under the harness's seeded scheduler; bitwise trace comparison against the system's own uninterrupted run",
-            "Seeded search over thread interleavings (sticky-random and PCT-like scheduler personalities), num_cores 1..4, num_chains 1..6, six presets, user scripts with pause/resume/progress/flush/inspect at seeded points; every execution's per-chain records must equal, bit for bit, the uninterrupted single-core FIFO run, runs with one chain more/fewer must agree on the common chains, and no two chains may produce the same draws. A small batch uses models with 2^16..2^18 parameters (work the math back-end would only split up for large vectors).",
+            "Seeded search over thread interleavings (sticky-random and PCT-like scheduler personalities), num_cores 1..4, num_chains 1..6, six presets, user scripts with pause/resume/progress/flush/inspect at seeded points; every execution's per-chain records must equal, bit for bit, the uninterrupted single-core FIFO run, runs with one chain more/fewer must agree on the common chains, and no two chains may produce the same draws. A small batch uses models with 2^16..2^18 parameters (work the math back-end would only split up for large vectors). In two thirds of the runs the recording storage tees every call into the real HashMap or ndarray backend; its finalized trace must equal the uninterrupted run's and no backend call may fail.",
             "rayon is replaced by a FIFO worker-pool stand-in and std sync/thread/time by shuttle models + a simulated clock (nuts_rs_verif_rt); bounds: <=6 chains, <=16 draws per chain, dimension <=3 (wide batch: <=2 chains, <=5 draws). Work handed to rayon's global pool by code other than the sampler would run on 3 real threads outside the scheduler: detected as a trace difference, not replayable exactly.",
             "DESIGN.md §5 C10"),
     "C11": (ENGINE_B, "exploration",
